@@ -595,8 +595,22 @@ def load_known_findings():
     return json.load(open(p)).get("findings", [])
 
 
+def evidence_dir():
+    """/verif/evidence describes /repo's current working tree only.  A run against another tree (VERIF_REPO: the seeded /
+    benign sweeps check scratch worktrees carrying a deliberate change) writes its evidence to VERIF_EVIDENCE_DIR or, by
+    default, to evidence/other-tree/ (ignored by git), so that a record of a mutated tree can never be committed as the
+    record of the unchanged one."""
+    d = os.environ.get("VERIF_EVIDENCE_DIR")
+    if d:
+        return d
+    if os.path.realpath(REPO) != os.path.realpath("/repo"):
+        return os.path.join(VERIF, "evidence", "other-tree")
+    return os.path.join(VERIF, "evidence")
+
+
 def write_evidence(ctx, coverage, assumptions, level="proof"):
-    os.makedirs(os.path.join(VERIF, "evidence"), exist_ok=True)
+    edir = evidence_dir()
+    os.makedirs(edir, exist_ok=True)
     ev = {
         "property_id": ctx.pid,
         "tier": ctx.tier,
@@ -608,7 +622,8 @@ def write_evidence(ctx, coverage, assumptions, level="proof"):
         "violations": len(ctx.violations),
         "known_findings_hit": [k["id"] for k in ctx.known_hits],
     }
-    path = os.path.join(VERIF, "evidence", ctx.pid + ".json")
+    ev["tree"] = os.path.realpath(REPO)
+    path = os.path.join(edir, ctx.pid + ".json")
     tmp = path + ".tmp%d" % os.getpid()
     with open(tmp, "w") as f:
         json.dump(ev, f, indent=1, default=str)
